@@ -507,13 +507,26 @@ def gen_async(seed: int, tier: str = "quick") -> Dict[str, Any]:
              "beh": {"bseed": rng.randrange(1 << 30), "step_sizes": [rng.choice([1, 1, 2, 3, 4])],
                      "async_calls": calls}}
         sims.append(B)
-        conns.append({"src": 0, "se": rng.randrange(A["n_ent"]), "dst": len(sims) - 1, "de": 0,
-                      "pairs": [["p_out", "m_in"]], "shift": 0, "weak": False, "async": True})
+        c = {"src": 0, "se": rng.randrange(A["n_ent"]), "dst": len(sims) - 1, "de": 0,
+             "pairs": [["p_out", "m_in"]], "shift": 0, "weak": False, "async": True}
+        if rng.random() < 0.2:
+            # the data connection itself is time-shifted; async_requests still ties the agent to A
+            c["shift"] = 1
+            c["init"] = {"p_out": f"initA{i}"}
+        conns.append(c)
+    if rng.random() < 0.3:
+        # somebody else feeds the attribute the agents write to, over an ordinary connection
+        D = {"sid": "D", "type": "time-based", "group": 0, "n_ent": 1, "meta_style": 0,
+             "transport": rng.choice(["gated", "stock", "remote"]),
+             "beh": {"bseed": rng.randrange(1 << 30), "step_sizes": [rng.choice([1, 2, 3])]}}
+        sims.append(D)
+        conns.append({"src": len(sims) - 1, "se": 0, "dst": 0, "de": rng.randrange(A["n_ent"]),
+                      "pairs": [["p_out", "m_in"]], "shift": 0, "weak": False})
     illegal = None
     if rng.random() < 0.35:
         # a third simulator without async connection, or a missing flag
         how = rng.choice(["third_sim", "other_agent", "no_flag"])
-        b = rng.randrange(1, len(sims))
+        b = rng.randrange(1, k + 1)
         if how == "third_sim":
             C = {"sid": "C", "type": "time-based", "group": 0, "n_ent": 1, "meta_style": 0,
                  "transport": rng.choice(["gated", "stock", "remote"]),
@@ -524,8 +537,8 @@ def gen_async(seed: int, tier: str = "quick") -> Dict[str, Any]:
             # (C feeds the agent over an ordinary connection, without async_requests)
             # avoid carve-out 1: the agent's m_in already has A.e? as a source; C.e0 is another source
             target = "C.e0"
-        elif how == "other_agent" and len(sims) > 2:
-            o = rng.choice([x for x in range(1, len(sims)) if x != b])
+        elif how == "other_agent" and k > 1:
+            o = rng.choice([x for x in range(1, k + 1) if x != b])
             target = f"{sims[o]['sid']}.e0"
         else:
             how = "no_flag"
